@@ -96,8 +96,15 @@ def _do_tabulation(p, args):
     species_list = args.exclude_species
     exclude_flag = True
 
+  config_file = args.config_file
+  if config_file is sys.stdin and hasattr(sys.stdin, "buffer"):
+    # standard input may decode leniently (surrogateescape under the C locale): read it as a file is read,
+    # so that a model which is not UTF-8 text is reported as such
+    import io
+    config_file = io.TextIOWrapper(sys.stdin.buffer, encoding = "utf-8")
+
   cp = _make_config_parser(
-    args.config_file, 
+    config_file, 
     args.override_item, 
     args.add_item, 
     args.remove_item,
